@@ -183,6 +183,44 @@ pub fn run(args: &Args) {
             }
         }
     }
+    // ---- PoreProfile / PlanarInterface wrappers: what they store after solving belongs to the profile they hold, whatever was solved before
+    for fu in functionals(false) {
+        if !["PcSaft/propane", "Pets"].contains(&fu.name.as_str()) { continue; }
+        let t = Temperature::from_reduced(fu.t);
+        let Ok(vle) = PhaseEquilibrium::pure(&fu.f, t, None, SolverOptions::default()) else { continue };
+        let bulk_of = |frac: f64| State::new_pure(&fu.f, t, vle.vapor().density * frac).ok();
+        let eps_ss = if fu.name == "Pets" { 30.0 } else { 100.0 };
+        let pore = Pore1D::new(Geometry::Cartesian, Length::from_reduced(20.0), ExternalPotential::LJ93 { sigma_ss: 3.0, epsilon_k_ss: eps_ss, rho_s: 0.08 }, Some(n_grid), None);
+        let stored = |p: &feos_dft::adsorption::PoreProfile1D<F>, step: &str| -> Value {
+            let recomputed = p.profile.grand_potential().map(|o| o.to_reduced()).unwrap_or(f64::NAN);
+            let pv = (p.profile.bulk.pressure(Contributions::Total) * p.profile.volume()).to_reduced();
+            json!({"step": step, "omega_stored": fs(p.grand_potential.map(|o| o.to_reduced()).unwrap_or(f64::NAN)), "omega_recomputed": fs(recomputed),
+                "tension_stored": fs(p.interfacial_tension.map(|o| o.to_reduced()).unwrap_or(f64::NAN)), "tension_recomputed": fs(recomputed + pv),
+                "residual": fs(p.profile.residual(false).map(|r| r.2).unwrap_or(f64::NAN))})
+        };
+        let (Some(b1), Some(b2)) = (bulk_of(0.2), bulk_of(0.23)) else { continue };
+        // history 1: solve, solve again with another solver; history 2: pre-relaxation in debug mode, then the real solve;
+        // history 3: solve, replace the bulk state directly (not through update_bulk), solve again; history 4: update_bulk, solve
+        let histories: Vec<(&str, Vec<&str>)> = vec![("solve twice", vec!["default", "newton"]), ("debug pre-relaxation then solve", vec!["debug-picard", "default"]),
+            ("bulk replaced directly", vec!["default", "set-bulk", "default"]), ("update_bulk", vec!["default", "update_bulk", "default"])];
+        for (hname, steps) in histories {
+            let Ok(mut p) = pore.initialize(&b1, None, None) else { continue };
+            let mut log = vec![];
+            let mut ok = true;
+            for st in &steps {
+                let r = guarded(std::panic::AssertUnwindSafe(|| match *st {
+                    "default" => p.solve_inplace(None, false),
+                    "newton" => p.solve_inplace(Some(&DFTSolver::new(None).newton(None, Some(30), None, Some(1e-11))), false),
+                    "debug-picard" => p.solve_inplace(Some(&DFTSolver::new(None).picard_iteration(None, Some(5), Some(1e-11), None)), true),
+                    "set-bulk" => { p.profile.bulk = b2.clone(); Ok(()) }
+                    _ => { p = p.clone().update_bulk(&b2); Ok(()) }
+                }));
+                match r { Ok(Ok(())) => {}, _ => { ok = false; break; } }
+                if *st != "set-bulk" && *st != "update_bulk" { log.push(stored(&p, st)); }
+            }
+            tr.ev(json!({"ev":"Resolve","functional":fu.name,"history":hname,"ok":ok,"after":log}));
+        }
+    }
     let n = tr.finish();
     println!("C18 trace: {} lines", n);
 }
